@@ -377,7 +377,9 @@ type yPods struct {
 
 func (p yPods) Get(ctx context.Context, name string, o metav1.GetOptions) (*corev1.Pod, error) {
 	p.w.yield("api.get.pods")
-	return p.PodInterface.Get(ctx, name, o)
+	pod, err := p.PodInterface.Get(ctx, name, o)
+	p.w.yield("api.get.pods.done") // the answer is on its way back: what the caller does with it is a separate step
+	return pod, err
 }
 func (p yPods) Bind(ctx context.Context, b *corev1.Binding, o metav1.CreateOptions) error {
 	p.w.yield("api.create.pods/binding")
@@ -432,15 +434,21 @@ type yFIPs struct {
 
 func (f yFIPs) Create(ctx context.Context, o *v1alpha1.FloatingIP, opts metav1.CreateOptions) (*v1alpha1.FloatingIP, error) {
 	f.w.yield("api.create.floatingips")
-	return f.FloatingIPInterface.Create(ctx, o, opts)
+	r, err := f.FloatingIPInterface.Create(ctx, o, opts)
+	f.w.yield("api.create.floatingips.done") // the store has the write, the caller has not acted on the answer yet
+	return r, err
 }
 func (f yFIPs) Update(ctx context.Context, o *v1alpha1.FloatingIP, opts metav1.UpdateOptions) (*v1alpha1.FloatingIP, error) {
 	f.w.yield("api.update.floatingips")
-	return f.FloatingIPInterface.Update(ctx, o, opts)
+	r, err := f.FloatingIPInterface.Update(ctx, o, opts)
+	f.w.yield("api.update.floatingips.done") // the store has the write, the caller has not acted on the answer yet
+	return r, err
 }
 func (f yFIPs) Delete(ctx context.Context, name string, opts metav1.DeleteOptions) error {
 	f.w.yield("api.delete.floatingips")
-	return f.FloatingIPInterface.Delete(ctx, name, opts)
+	err := f.FloatingIPInterface.Delete(ctx, name, opts)
+	f.w.yield("api.delete.floatingips.done")
+	return err
 }
 func (f yFIPs) Get(ctx context.Context, name string, opts metav1.GetOptions) (*v1alpha1.FloatingIP, error) {
 	f.w.yield("api.get.floatingips")
